@@ -167,6 +167,15 @@ func switchSuite() []swModel {
 	add("partly ordered", "'a' 'x' / 'a' 'y' / 'b' e / 'c' e / 'd'", func(m *model) *Obj {
 		return m.alt(m.seq(m.char("a"), m.char("x")), m.seq(m.char("a"), m.char("y")), m.seq(m.char("b"), e(m)), m.seq(m.char("c"), e(m)), m.char("d"))
 	})
+	add("case ending in a label", "'c' 'd' / 'a' 'b'? () / 'e' 'f'", func(m *model) *Obj {
+		return m.alt(m.seq(m.char("c"), m.char("d")), m.seq(m.char("a"), m.query(m.char("b")), m.nilNode()), m.seq(m.char("e"), m.char("f")))
+	})
+	add("case ending in a label", "'c' e / 'a' (e / e) {act} / 'e' e", func(m *model) *Obj {
+		return m.alt(m.seq(m.char("c"), e(m)), m.seq(m.char("a"), m.alt(e(m), e(m)), m.action("__act0()")), m.seq(m.char("e"), e(m)))
+	})
+	add("class across the surrogate block", "'a' 'b' / [\\uD7FE-\\uE001] 'x' / [\\u0100-\\u0A00] 'd'", func(m *model) *Obj {
+		return m.alt(m.seq(m.char("a"), m.char("b")), m.seq(m.rng("\ud7fe", "\ue001"), m.char("x")), m.seq(m.rng("\u0100", "\u0a00"), m.char("d")))
+	})
 	add("no rewrite (dot intersects)", "'a' e / 'b' e / . e", func(m *model) *Obj {
 		return m.alt(m.seq(m.char("a"), e(m)), m.seq(m.char("b"), e(m)), m.seq(m.dot(), e(m)))
 	})
